@@ -269,6 +269,13 @@ def replay_parallel(ctx, binpath, run, doc, tag, nproc=4, env=None, timeout=1500
     return summ, mism
 
 
+def collect(r, what):
+    s = r.of("summary")
+    if not s:
+        raise vf.Infra("%s harness produced no summary:\n%s" % (what, r.out[-3000:]))
+    return s[0], r.of("mismatch")
+
+
 def total(summ, key):
     return sum(s.get(key, 0) for s in summ)
 
